@@ -480,6 +480,15 @@ def rule_cutoff(chk, pyk):
                 zero_ok = len(set(U(a.targets[0]) for a in pre)) == len(tg) and not iff.orelse
             chk.decide(zero_ok, 'cutoff-agreement', '%s.%s:zero-outside' % (name, m), node=iff or fn, file=KER, func='%s.%s' % (name, m),
                        detail_bad='the value beyond the cut-off is not identically zero', detail_ok='0 beyond the cut-off')
+            # kernels whose formula does not vanish at the edge by itself (exponential family) must exclude q == radius_scale from the non-zero branch:
+            # the property asks for W = 0 (and zero gradient) for r >= radius_scale*h
+            body_src = ' '.join(U(x) for x in fn.body)
+            if 'exp(' in body_src:
+                op = cmpn.ops[0]
+                zero_at_edge = isinstance(op, (ast.GtE, ast.Lt))      # `if q >= R: 0`  or  `if q < R: value` (zero otherwise)
+                chk.decide(zero_at_edge, 'cutoff-agreement', '%s.%s:zero-at-the-edge' % (name, m), node=cmpn, file=KER, func='%s.%s' % (name, m),
+                           detail_bad='`%s` leaves q == %g in the non-zero branch: this kernel does not vanish there by itself (exp(-%g^2) != 0), so W / dW are non-zero exactly at r = radius_scale*h'
+                                      % (U(cmpn), rs, rs), detail_ok='q == %g is in the zero branch' % rs)
 
 
 def rule_gradient_form(chk, pyk):
